@@ -1,1 +1,143 @@
-//! vh-r2 (stub)
+//! vh-r2 — R2, an independent GraphQL parser (reference model for C13, C14, C17).
+//!
+//! Hand-written lexer + recursive descent for the October-2021 specification:
+//! executable documents and type-system documents (schema / scalar / type /
+//! interface / union / enum / input / directive definitions, all `extend`
+//! forms, descriptions, `implements A & B`, `repeatable`, directive
+//! locations). Shares nothing with async-graphql's pest grammar.
+//!
+//! # API in one screen
+//!
+//! ```ignore
+//! use vh_r2::*;
+//! // parsing -------------------------------------------------------------
+//! let p: Parsed = parse_executable(text, &Options::default())?;   // operations + fragments only
+//! let p: Parsed = parse_type_system(sdl, &Options::default())?;   // type-system definitions + extensions only
+//! let p: Parsed = parse_document(text, &Options::default())?;     // any mix
+//! p.doc            // ast::Document { definitions: Vec<Definition> }
+//! p.features       // constructs noticed while parsing (see parser::FEATURE_TAGS)
+//! // Err(SyntaxError { kind: ErrKind, pos, char_offset, message })
+//!
+//! // document-level rules that async-graphql's parser also enforces -------
+//! validate_executable(&p.doc, Some(64))?;   // unique operation/fragment names, lone anonymous op, >=1 op, nesting limit
+//! validate_type_system(&p.doc)?;            // query root present, root operation types unique
+//!
+//! // tree (ast.rs) ---------------------------------------------------------
+//! // every node has `pos: Pos {line, col}` = start of its first token; `==` on
+//! // nodes IGNORES positions; use `pos.lc()` / `all_positions(&doc)` to compare them.
+//! for t in p.doc.types() {                  // TypeDefinition (also extensions: t.extend)
+//!     t.name.value; t.description.as_ref().map(|d| d.text());
+//!     find_directive(&t.directives, "deprecated").and_then(|d| d.argument("reason")).and_then(|v| v.as_str());
+//!     match &t.kind { TypeDefKind::Object { implements, fields } => { /* FieldDefinition: name, arguments (InputValueDefinition:
+//!                       name, ty, default_value: Option<Value>, directives), ty: Type, directives, description */ } _ => {} }
+//! }
+//! p.doc.directive_definitions(); p.doc.schema_definitions(); p.doc.operations(); p.doc.fragments();
+//! // values: ValueKind::{Variable, Int(lexeme), Float(lexeme), String(StringValue{value (decoded), block, raw}),
+//! //                     Boolean, Null, Enum, List, Object(Vec<(Name, Value)>)}; Type { base: Named|List, non_null } + Display
+//!
+//! // printing ----------------------------------------------------------------
+//! let text = print_compact(&doc);
+//! let pr: Printed = print(&doc, &PrintOptions::default(), &mut RandomNoise::new(NoiseConfig::hostile(), rng));
+//! pr.text; pr.tokens /* Vec<PToken{text, kind, ..}> */; pr.table /* Vec<TokenEntry{line, col, char_start, char_end}> */;
+//! pr.gaps /* ignored text around the tokens */; pr.doc /* the tree with exact positions */
+//! render(&tokens, &mut noise)    // lay out any token sequence (e.g. a mutated one) -> Rendered { text, gaps, table }
+//! LineIndex::new(text)           // (line, col) <-> character index under the C14 rule
+//!
+//! // generation ----------------------------------------------------------------
+//! let doc = gen_executable(&mut rng, &GenConfig::default());
+//! let doc = gen_type_system(&mut rng, &GenConfig::default());
+//! self_check(&doc, DocClass::Executable, &pr)?;   // R2(print(ast)) == ast, positions == token table
+//! ```
+//!
+//! # Line/column rule
+//! LF, CRLF and a lone CR each end a line (also inside block strings and
+//! comments); columns count Unicode scalar values; both are 1-based; U+FEFF
+//! counts as one column.
+//!
+//! # Deliberate choices
+//! * `\uXXXX` must denote a Unicode scalar value; surrogates are rejected
+//!   (`ErrKind::SurrogateEscape`) — the documented deviation of async-graphql.
+//!   `\u{...}` is rejected with its own kind (`BracedUnicodeEscape`): later
+//!   editions allow it.
+//! * `Options::allow_control_chars` selects between the October-2021
+//!   SourceCharacter set and the later "any scalar value" rule.
+//! * Numbers keep their lexeme; R2 never rounds.
+//! * `BlockStringValue()` follows the specification step by step
+//!   (`lexer::block_string_value`); the generator builds block strings from
+//!   the value outwards and does not use that function.
+
+pub mod ast;
+pub mod generate;
+pub mod lexer;
+pub mod parser;
+pub mod print;
+pub mod validate;
+
+pub use ast::*;
+pub use generate::{Gen, GenConfig, gen_executable, gen_type_system};
+pub use lexer::{ErrKind, LineIndex, Options, SyntaxError, Tok, Token, block_string_value, lex};
+pub use parser::{DocClass, FEATURE_TAGS, Parsed, parse};
+pub use print::{
+    Gap, Noise, NoiseConfig, PKind, PToken, PrintOptions, Printed, RandomNoise, Rendered, TokenEntry, encode_block,
+    encode_quoted, needs_separator, print, print_compact, render, tokens_of,
+};
+pub use validate::{
+    RuleViolation, max_selection_depth, selection_depth, validate_executable, validate_type_system,
+};
+
+/// Parse any `Document` (executable and type-system definitions may be mixed).
+pub fn parse_document(text: &str, o: &Options) -> Result<Parsed, SyntaxError> {
+    parse(text, DocClass::Any, o)
+}
+/// Parse an `ExecutableDocument` (operations and fragments only).
+pub fn parse_executable(text: &str, o: &Options) -> Result<Parsed, SyntaxError> {
+    parse(text, DocClass::Executable, o)
+}
+/// Parse a type-system document (definitions and extensions only).
+pub fn parse_type_system(text: &str, o: &Options) -> Result<Parsed, SyntaxError> {
+    parse(text, DocClass::TypeSystem, o)
+}
+
+/// Self-validation of R2 on a generated document: parsing the printed text
+/// gives back the generator's tree, and every node position equals the
+/// printer's token table.
+pub fn self_check(doc: &Document, class: DocClass, printed: &Printed) -> Result<Parsed, String> {
+    let parsed = parse(&printed.text, class, &Options::default())
+        .map_err(|e| format!("R2 rejects its own print: {e}"))?;
+    if parsed.doc != *doc {
+        let a: Vec<char> = format!("{doc:?}").chars().collect();
+        let b: Vec<char> = format!("{:?}", parsed.doc).chars().collect();
+        // positions differ textually (0:0 in the generated tree): compare with them blanked
+        let strip = |v: &[char]| -> String {
+            let s: String = v.iter().collect();
+            let mut out = String::new();
+            let mut rest = s.as_str();
+            while let Some(i) = rest.find("pos: ") {
+                out.push_str(&rest[..i + 5]);
+                rest = &rest[i + 5..];
+                let j = rest.find([',', ' ', '}']).unwrap_or(rest.len());
+                rest = &rest[j..];
+            }
+            out.push_str(rest);
+            out
+        };
+        let (sa, sb) = (strip(&a), strip(&b));
+        let (ca, cb): (Vec<char>, Vec<char>) = (sa.chars().collect(), sb.chars().collect());
+        let k = ca.iter().zip(&cb).position(|(x, y)| x != y).unwrap_or(ca.len().min(cb.len()));
+        let lo = k.saturating_sub(120);
+        let xa: String = ca[lo..(k + 160).min(ca.len())].iter().collect();
+        let xb: String = cb[lo..(k + 160).min(cb.len())].iter().collect();
+        return Err(format!("R2(print(ast)) != ast\n generated: …{xa}…\n reparsed:  …{xb}…"));
+    }
+    let want = all_positions(&printed.doc);
+    let got = all_positions(&parsed.doc);
+    if want != got {
+        let k = want.iter().zip(&got).position(|(a, b)| a != b);
+        return Err(format!(
+            "R2 positions differ from the token table at position #{k:?}: table {:?} parsed {:?}",
+            k.map(|k| want[k]),
+            k.map(|k| got[k])
+        ));
+    }
+    Ok(parsed)
+}
